@@ -62,7 +62,7 @@ def instances(tier, seed):
             out += [(theme, p, i % 11 == 0) for i, p in enumerate(d2)]
             out += [(theme, p, False) for p in gen.sample_deep(theme, rng, 400, d=3)]
             out += [(theme, p, False) for p in gen.sample_deep(theme, rng, 200, d=4)]
-    out += [("real", p, True) for p in gen.einsum_progs()] + [("real", p, True) for p in gen.independent_progs()] + [("real", p, True) for p in gen.constant_progs()] + [("real", p, True) for p in gen.nondistributive_progs()] + [("log", p, True) for p in gen.constant_progs("log")]
+    out += [("real", p, True) for p in gen.einsum_progs()] + [("real", p, True) for p in gen.independent_progs()] + [("real", p, True) for p in gen.constant_progs()] + [("real", p, True) for p in gen.nondistributive_progs()] + [("real", p, True) for p in gen.matmul_progs()] + [("real", p, True) for p in gen.stack_hetero_progs()] + [("log", p, True) for p in gen.constant_progs("log")]
     return out
 
 
